@@ -4,6 +4,9 @@ import (
 	"context"
 	"encoding/json"
 	"fmt"
+	"google.golang.org/genproto/googleapis/api/annotations"
+	"google.golang.org/grpc"
+	"google.golang.org/protobuf/types/descriptorpb"
 	"math/rand"
 	"strings"
 	"time"
@@ -106,6 +109,73 @@ func approxTokens(tmpl string) int {
 		}
 	}
 	return n
+}
+
+// schemaSkew registers the same rules against two revisions of a message
+// with one full name, each on a mux of its own (own FilesOption registry):
+// revision 1 has the fields the rules name, revision 2 lacks them. Revision 1
+// first, then revision 2 (must be refused as an unknown field path), then
+// revision 1 again (must still be accepted).
+func schemaSkew(r *mon.Run) {
+	mk := func(rev int, rule *annotations.HttpRule) (*larking.Mux, *grpc.ServiceDesc, error) {
+		name, sub := "M", "Inner"
+		inner := &descriptorpb.DescriptorProto{Name: &sub, Field: []*descriptorpb.FieldDescriptorProto{vschema.StrField("k", 1)}}
+		m := &descriptorpb.DescriptorProto{Name: &name, Field: []*descriptorpb.FieldDescriptorProto{vschema.StrField("a", 1)}}
+		if rev == 1 {
+			m.Field = append(m.Field, vschema.StrField("x", 2), vschema.I64Field("cnt", 3), vschema.MsgField("in", 4, "vf.sk.Inner"))
+			inner.Field = append(inner.Field, vschema.StrField("deep", 2))
+		}
+		f := &vschema.File{Path: "vf/sk.proto", Pkg: "vf.sk", Messages: []*descriptorpb.DescriptorProto{m, inner},
+			Services: []vschema.Service{{Name: "S", Methods: []vschema.Method{{Name: "Do", In: "vf.sk.M", Out: "vf.Rsp", Rule: rule}}}}}
+		fd, err := f.Build()
+		if err != nil {
+			return nil, nil, err
+		}
+		reg, err := vschema.Registry(fd)
+		if err != nil {
+			return nil, nil, err
+		}
+		mux, err := larking.NewMux(larking.FilesOption(reg))
+		if err != nil {
+			return nil, nil, err
+		}
+		return mux, vschema.ServiceDesc(fd.Services().Get(0), &Built{}), nil
+	}
+	rules := []struct {
+		name string
+		rule *annotations.HttpRule
+	}{
+		{"path-variable", &annotations.HttpRule{Pattern: &annotations.HttpRule_Get{Get: "/sk/{x}"}}},
+		{"typed-path-variable", &annotations.HttpRule{Pattern: &annotations.HttpRule_Get{Get: "/sk/n/{cnt}"}}},
+		{"body-selector", &annotations.HttpRule{Pattern: &annotations.HttpRule_Post{Post: "/sk/b"}, Body: "in"}},
+		{"nested-path-variable", &annotations.HttpRule{Pattern: &annotations.HttpRule_Get{Get: "/sk/d/{in.deep}"}}},
+		{"response-body-independent", &annotations.HttpRule{Pattern: &annotations.HttpRule_Get{Get: "/sk/a/{a}/{x}"}}},
+	}
+	for _, rl := range rules {
+		for i, rev := range []int{1, 2, 1, 2} {
+			mux, sd, err := mk(rev, rl.rule)
+			if err != nil {
+				r.Inconclusive("schema skew harness: " + err.Error())
+				return
+			}
+			var rerr error
+			pi := mon.Catch(func() { rerr = larking.VerifRegisterService(mux, sd, struct{}{}) })
+			r.Eval(1)
+			c := map[string]any{"rule": rl.name, "revision": rev, "step": i}
+			switch {
+			case pi != nil:
+				r.Violate(pi.Key(), fmt.Sprintf("schema revision %d, %s: registration panicked: %s", rev, rl.name, pi.Value), c)
+				return
+			case rev == 1 && rerr != nil:
+				r.Violate("rejected-valid:schema-revision-with-the-field:"+rl.name, fmt.Sprintf("step %d: the rule names fields revision 1 of vf.sk.M has, yet it was refused: %v", i, rerr), c)
+				return
+			case rev == 2 && rerr == nil:
+				r.Violate("accepted-invalid:unknown-field-path:other-revision-of-the-message-has-it:"+rl.name, fmt.Sprintf("step %d: revision 2 of vf.sk.M (registered on its own mux with its own FilesOption registry) lacks the field the rule names, yet the rule was accepted", i), c)
+				return
+			}
+			r.Distinct(fmt.Sprintf("schema-skew:%s:rev%d", rl.name, rev))
+		}
+	}
 }
 
 func via2(c *Cand) string {
@@ -707,6 +777,9 @@ func RunC16(r *mon.Run) {
 		}
 		execCand(r, &Cand{Rule: bad, TgtRule: &tr, Base: base, Origin: "late-failure"}, rng)
 	}
+	// (g) two schemas for one message name in the process: a rule is judged
+	// against the revision it is registered with, whatever other muxes saw
+	schemaSkew(r)
 	// Tgt (registered first) binds a concrete verb on the implicit path of
 	// Oth, which is registered after it: overlap with an any-verb binding is
 	// unspecified, but it must never panic
